@@ -336,6 +336,7 @@ class Layout:
             serialNum,
             numChildren,
             location,
+            locationType,
             material,
             temperatures,
             gridIndex,
@@ -345,6 +346,7 @@ class Layout:
             self.serialNum,
             self.numChildren,
             self.location,
+            self.locationType,
             self.material,
             self.temperatures,
             self.gridIndex,
@@ -374,7 +376,7 @@ class Layout:
                     *gridParams[1], armiObject=comp
                 )
 
-            comps.append((comp, serialNum, numChildren, location))
+            comps.append((comp, serialNum, numChildren, location, locationType))
             groupedComps[compType].append(comp)
 
         return comps, groupedComps
